@@ -59,4 +59,12 @@ PROPS = {
         ],
         "assumptions": ["documents carry at most one value per field; values are strings or numbers", "a live document contributes the terms of fields registered when it was inserted"],
     },
+    "C08": {
+        "trusted_base": [
+            "modelled, not verified: engine/logic/match.go (MatchesCondition, MatchesHasExpression), the simple-path part of jsonpath/jsonpath.go (namespace, reserved fields, nested map lookup; array indexes are not modelled), spf13/cast ToFloat64E on JSON kinds and strconv.ParseFloat on the decimal grammar (sign, digits, fraction, exponent)",
+            "numbers are exact rationals: the harness only emits doubles that are exactly representable, so float and rational comparison agree",
+        ],
+        "assumptions": ["numeric text = decimal floating-point literals; the special spellings ParseFloat also accepts (inf, infinity, nan, hex floats, digit-separating underscores) are outside the generator's alphabet and the model",
+                        "map values are compared key-sorted (reflect.DeepEqual is order-insensitive on maps)"],
+    },
 }
